@@ -5,22 +5,26 @@ from vlib import core
 LEVEL = "other"
 EXPLANATION = (
     "Partial proof + differential exploration.  Proved in Coq for every input (any size, any order of the edge vector, ties "
-    "included) about a faithful transcription of Flag_complex_edge_collapser::process_edges: the sweep terminates (its fuel is "
-    "never exhausted), every returned edge is an input edge with a value >= its input value, every returned value is the value of "
-    "an input edge, the returned list has no repeated edge when the input has none, and the default and the "
-    "GUDHI_COLLAPSE_USE_DENSE_ARRAY bodies of is_dominated_by / of the push-forward test compute the same predicate on coherent "
-    "tables.  The decisive clause - the flag filtration of the returned edges has the same persistence diagram in every dimension "
-    "- is the theorem of Boissonnat-Pritam / Glisse-Pritam and is NOT formalised (kept as Definition "
-    "C12_collapse_preserves_barcode_full : Prop).  It is measured: for every generated graph the extracted, certified pairing "
-    "oracle (certified_lows of ReduceExec.v, proved canonical for every prime) computes the diagrams over Z_2 and Z_3 of the input "
-    "flag filtration and of the flag filtration of the edges returned by each C++ build variant and by the model, and they must be "
-    "equal; the returned edge list is compared exactly with the model's.")
+    "included) about a faithful transcription of Flag_complex_edge_collapser::process_edges: the sweep terminates; every returned edge "
+    "is an input edge with a value >= its input value; every returned value is the value of an input edge; no edge is returned twice; "
+    "on every simple graph the default and the GUDHI_COLLAPSE_USE_DENSE_ARRAY variants return the same list (the dense table is shown "
+    "to stay a copy of the sorted neighbourhoods); common_neighbors / is_dominated_by compute exactly the common neighbours at a time / "
+    "the edge-domination predicate N(e) subset N[c]; every edge is delayed or dropped only across times at which it is dominated in the "
+    "current graph (the hypothesis of the edge-collapse theorem holds at every step: C12_every_move_is_a_dominated_edge_partial); and, "
+    "as the dimension-0 part of the conclusion, the returned graph has at every time the same connected components as the input "
+    "(C12_collapse_preserves_components_partial).  The decisive clause in dimensions >= 1 - a dominated-edge move does not change "
+    "the persistence module (Boissonnat-Pritam / Glisse-Pritam) - is NOT formalised (Definition C12_collapse_preserves_barcode_full "
+    ": Prop).  It is measured: for every generated graph the extracted, certified pairing oracle (certified_lows of ReduceExec.v, "
+    "proved canonical for every prime) computes the diagrams over Z_2 and Z_3, in every dimension up to the clique number, of the input "
+    "flag filtration and of the flag filtration of the edges returned by each of the 8 C++ build variants and by the model, and they "
+    "must be equal; the returned edge list is compared exactly with the model's.")
 MANIFEST = dict(
     cat="other",
-    tech="Coq theorems about a transcription of the collapse sweep (subset / monotone values / no duplicates / table variants agree / "
-         "termination) + differential run of the C++ (8 build variants) against the extracted model, persistence diagrams before/after "
+    tech="Coq theorems about a transcription of the collapse sweep (termination / subset / monotone values / no duplicates / table "
+         "variants agree / every move is a dominated-edge move / connected components preserved at every time) + differential run of the C++ (8 build variants) against the extracted model, persistence diagrams before/after "
          "compared through the certified pairing oracle over Z_2 and Z_3",
-    text="The structural clauses of the property are proved for all inputs of the algorithm model; the model is tied to the C++ by exact "
+    text="The structural clauses of the property, the hypothesis of the edge-collapse theorem at every step and the dimension-0 "
+         "conclusion (components) are proved for all inputs of the algorithm model; the model is tied to the C++ by exact "
          "comparison of the surviving edge lists on generated graphs (<= 10 vertices: complete, sparse, repeated weights, relabelled, "
          "already minimal, late domination) under every build variant; preservation of the persistence diagram (a literature theorem, "
          "not formalised) is measured on every case in every dimension up to the clique number with a pairing oracle proved canonical.",
